@@ -131,6 +131,9 @@ def gen(tier, seed):
     for k, sh in enumerate([('struct', [('named', ['p', 'x', 'w'])]), ('struct', [('tuple', ['x', 'p'])]), ('enum', [('tuple', ['p', 'x']), ('named', ['x', 'm', 'p']), ('unit', [])])]):
         mods.append(emit(f'm{n:04d}', f'{S.shape_id(sh)}/peq={k % 2}/ignore+method on one field', sh, k % 2 == 1))
         n += 1
+    for k, sh in enumerate([('struct', [('named', ['i', 'm', 'i'])]), ('struct', [('tuple', ['m', 'i'])]), ('enum', [('tuple', ['i', 'm']), ('named', ['m', 'i', 'i']), ('unit', [])])]):
+        mods.append(emit(f'm{n:04d}', f'{S.shape_id(sh)}/peq=0/single fed field with a method', sh, False))
+        n += 1
     from .model import Spelling
     for j in range(3):
         sh = [('struct', [('tuple', ['f', 'i', 'w'])]), ('enum', [('named', ['f', 'm']), ('tuple', ['i', 'f']), ('unit', [])]), ('struct', [('named', ['m', 'f'])])][j]
